@@ -1069,10 +1069,26 @@ def b_next(eng, st, args, kw):
 
 @_b("sorted")
 def b_sorted(eng, st, args, kw):
-    if "key" in kw or "reverse" in kw:
-        raise Unsupported("sorted with key/reverse")
     lst = snapshot_list(eng, st, args[0])
+    if "key" in kw or "reverse" in kw:
+        # sorted(xs, key=f): modelled as SOME permutation of xs - the order imposed by the key is not modelled (an over-approximation:
+        # whatever is proved holds for every order, in particular for the sorted one)
+        return [(st, permute_list(eng, st, lst))]
     return [(st, sort_list(eng, st, lst, fresh=False))]
+
+
+def permute_list(eng, st, lst):
+    n = st.clen(lst.t)
+    old = st.cseq(lst.t)
+    new = sym.fresh_const("permuted", sym.SeqArrS)
+    perm = z3.Function(sym.fresh_name("perm"), sym.IntS, sym.IntS)
+    inv = z3.Function(sym.fresh_name("perminv"), sym.IntS, sym.IntS)
+    i = sym.fresh_int("i")
+    st.assume(z3.ForAll([i], z3.Implies(z3.And(i >= 0, i < n), z3.And(perm(i) >= 0, perm(i) < n, inv(perm(i)) == i, z3.Select(new, i) == z3.Select(old, perm(i)))),
+                        patterns=[z3.Select(new, i)]))
+    st.assume(z3.ForAll([i], z3.Implies(z3.And(i >= 0, i < n), z3.And(inv(i) >= 0, inv(i) < n, perm(inv(i)) == i)), patterns=[inv(i)]))
+    st.set_seq(lst.t, new)
+    return lst
 
 
 def sort_list(eng, st, lst, fresh=True):
